@@ -8,6 +8,7 @@ A spec is a nested tuple  (name, kind, payload, children)  where children are sp
   kind 'list'   : returns [child calls...] (a nested list of lazy calls)
   kind 'catch'  : returns catch(child0, ValueError, recover) (recover returns ('recovered', msg))
   kind 'seq'    : returns seq([children])
+  kind 'seqnest': returns seq([[children[:-1]...], [children[-1]]]) -- seq items that are containers of lazy calls
   kind 'catchthen': returns seq([catch(child0, ValueError, recover), child0]) -- one expression object, demanded twice
   kind 'catchany': returns catch(child0, Exception, recover)
   kind 'all'    : returns catch_all([children], cls, rec): payload 0 = no recover (first error BY POSITION is re-raised
@@ -62,6 +63,9 @@ def node(spec):
         return catch(calls[0], ValueError, recover)
     if kind == "seq":
         return seq(calls)
+    if kind == "seqnest":
+        # items of a seq that are CONTAINERS of lazy calls (evaluated as nested values), then a lazy call in a container
+        return seq([list(calls[:-1]), [calls[-1]]])
     if kind == "catchthen":
         # the SAME expression demanded twice by one job, the second demand staged after the first one settled:
         # first inside a catch (so the job survives a failure), then bare
